@@ -69,7 +69,7 @@ func runStackProperty(t *testing.T, prop, test string, gen func(*rapid.T) SProgr
 			runOne(c, t.Fatalf)
 		}
 	}
-	rapid.Check(t, func(rt *rapid.T) {
+	checkBudget(t, func(rt *rapid.T) {
 		runOne(gen(rt), rt.Fatalf)
 	})
 }
